@@ -183,6 +183,26 @@ def run_codec(cfg, counters, violations, samples, distinct):
                 except Exception as e:
                     viol("roundtrip-raises" if wire == want else classify_codec(n, masked, "write", "header"),
                          "frame %s: reading the library's own bytes raised %r" % (case, e), case)
+                # the parts of the encoding are functions of the frame, whatever order they are asked for in (a frame that was only
+                # constructed, never written): data header first, then header
+                if idx % 2 == 0 or n in (125, 126, 127, 65535, 65536):
+                    try:
+                        f2 = H.WebSocketFrame()
+                        f2.flags.fin = 1
+                        f2.flags.opcode = getattr(H.WebSocketOpCode, opname)
+                        f2.payload = payload
+                        f2.payload_length = len(payload)
+                        if masked:
+                            f2.flags.mask = 1
+                            f2.masking_key = key
+                        dh = f2.serializeDataHeader()
+                        hh = f2.serializeHeader()
+                        hl_ = len(want) - n
+                        counters.inc("header_parts_checked")
+                        if bytes(hh) + bytes(dh) != want[:hl_]:
+                            viol("header-parts-differ", "frame %s: serializeDataHeader() then serializeHeader() give %s, RFC 6455 says %s" % (case, short(bytes(hh) + bytes(dh)), short(want[:hl_])), case)
+                    except Exception as e:
+                        viol("write-raises", "serializeDataHeader()/serializeHeader() of frame %s raised %r" % (case, e), case)
                 # a frame is a value: writing it does not change it.  The frame a reader returned (its payload is whatever type the
                 # reader uses, e.g. a bytearray) is written twice - a relay to two peers - and both copies are the RFC bytes
                 if idx % 3 == 0 or n <= 130:
@@ -527,6 +547,21 @@ def run_seg(cfg, counters, violations, samples, distinct):
                 judge("direct" if mask % 2 else "channel", frames, chunks, "all-cut-sets")
                 counters.inc("exhaustive_cut_sets")
             distinct.add(h64("exh", stream))
+    # ---- one long-lived connection: well over a MiB goes through it, the reads ending exactly on frame boundaries now and then,
+    #      then small frames; whatever the buffer does with consumed bytes, every frame is delivered exactly once
+    if cfg["shard"] % 3 == 0:
+        for boundary in ("channel", "direct"):
+            big = []
+            for k in range(20):
+                big.append(("Binary", r.randbytes(65536 - 14 + (k % 3)), r.randbytes(4)))
+            tail = [("Text", ("t%d" % k).encode(), r.randbytes(4)) for k in range(5)]
+            frames = big + tail
+            chunks = [ref_encode(OPS[op], p, k) for op, p, k in frames]
+            if boundary == "direct":
+                # (some reads split inside frames, the one that crosses the MiB ends on a boundary)
+                chunks = chunks[:8] + cut(b"".join(chunks[8:14]), [70000, 140001]) + chunks[14:]
+            judge(boundary, frames, chunks, "long-lived-connection")
+            counters.inc("long_lived_connections")
     for case in range(cfg["n"]):
         if case % 10 == 0:
             run_concurrent(r, holder, counters, violations)
@@ -578,7 +613,8 @@ def finish(tier, seed, results):
     m = merge(results)
     inconclusive = []
     need(m["counters"], ["frames_written", "frames_read", "roundtrips", "streams_fed_channel", "streams_fed_direct",
-                         "control_ok", "exhaustive_cut_sets", "frames_delivered_in_order", "concurrent_connections"], inconclusive)
+                         "control_ok", "exhaustive_cut_sets", "frames_delivered_in_order", "concurrent_connections", "long_lived_connections",
+                         "header_parts_checked", "frames_written_twice"], inconclusive)
     if m["counters"].get("control_ok", 0) != m["counters"].get("control_streams", -1):
         inconclusive.append("positive control failed: frame-aligned single-frame reads were not all delivered "
                             "(%s of %s) - the harness cannot attach" % (m["counters"].get("control_ok"), m["counters"].get("control_streams")))
